@@ -427,7 +427,7 @@ pub fn check(s: &'static dyn Proto, c: &Case, st: &mut Stats, _k: &KnownFindings
 
 pub const BUDGET: Budget = Budget {
     quick: (1000, 360, 110),
-    thorough: (1500, 500, 150),
+    thorough: (8000, 2500, 800),
     shrink: 200,
 };
 
